@@ -39,11 +39,10 @@ ASSUMPTIONS = [
 THEOREM_CLASSES = {
     "C05_analyzer_sound_refuted": "refutation",
     "C05_analyzer_sound_partial": "main",
-    "C05_labels_goto_defer_sound_refuted": "refutation",
     "C05_labels_unique_per_function_refuted": "refutation",
     "C05_flow_sound": "main",
     "C05_names_sound": "main",
-    "C05_labels_goto_defer_sound_partial": "main",
+    "C05_labels_goto_defer_sound": "main",
     "C05_switch_case_values_sound": "main",
     "C05_consts_sound": "main",
     "C05_analyzer_complete_flow": "corollary",
@@ -58,11 +57,11 @@ UNPROVED = [
     "`error located at the offending construct`: line + message class are compared by the correspondence, no theorem",
     "`produces no executable`: the analyzer's exit status and diagnostic are used, a full compile is not run on rejects",
     "`wherever the construct appears` (polymorphic, generic, preprocessor code): six embeddings and three interpolation styles by testing; the model only has the forced-symbol constructors UseF / AssignF",
-    "labels: `unique per function` and `no goto leaves a defer block` are REFUTED for the unchanged analyzer (witnesses replayed every run); completeness of the goto/defer check does not hold (deliberately conservative) and is not claimed",
+    "labels: `unique per function` is REFUTED for the unchanged analyzer (Lua 5.4's visible-label rule is what is proved; witness replayed every run); completeness of the goto/defer check does not hold (deliberately conservative) and is not claimed",
     "the multi-pass type resolution of the analyzer is modelled only as the two passes of goto resolution",
 ]
 MANIFEST_ENTRY = {
-    "text": "proof, partial: Coq theorems over an executable model of the analyzer's devices (all programs of the mini-AST, any nesting depth): whatever the analyzer accepts obeys the rules for const/comptime assignment, undeclared names, capture of a local of an enclosing function (also through preprocessor-interpolated symbols), call arity, integer constant range, constant array index, break/continue/fallthrough placement, duplicate case values, duplicate VISIBLE labels and gotos crossing an executed/skipped defer; completeness for control flow and names. Full strength is refuted for two label clauses (label repeated in a function when not visible; goto leaving a defer block - open finding with proposed repair). Argument types, pointer/incompatible arithmetic, error position, `no executable` and the polymorphic/generic/preprocessor contexts rest on differential testing only (rule table x embeddings).",
+    "text": "proof, partial: Coq theorems over an executable model of the analyzer's devices (all programs of the mini-AST, any nesting depth): whatever the analyzer accepts obeys the rules for const/comptime assignment, undeclared names, capture of a local of an enclosing function (also through preprocessor-interpolated symbols), call arity, integer constant range, constant array index, break/continue/fallthrough placement, duplicate case values, duplicate VISIBLE labels, gotos crossing an executed/skipped defer or leaving a defer block; completeness for control flow and names. Full strength is refuted for one label clause (a label repeated in a function when the first is not visible: Lua 5.4's rule, harmless, no repair proposed). Argument types, pointer/incompatible arithmetic, error position, `no executable` and the polymorphic/generic/preprocessor contexts rest on differential testing only (rule table x embeddings).",
     "note": "trusted: Coq 8.16.1 kernel; the hand-written model tied to /repo by Gen.v scrapes (analyzer.lua visitors.Switch/Id/Break/Continue, typedefs.lua) and by differential correspondence (accept/reject, line, message class) over 6 embeddings, which is testing; extraction (ExtrOcamlBasic), OCaml driver, Python generator/printer; depends on checks/C05.py only (no cross-property files)",
     "technique": "machine-checked proof in Coq over an executable model + extracted-model/implementation correspondence",
 }
@@ -99,6 +98,10 @@ def gen(ctx):
     # the accessibility check is a statement of the function body itself (indent 2), after both the
     # lookup branch and the forcesymbol branch
     forced_checked = bool(re.search(r"\n  else\n    symbol = attr\.forcesymbol\n  end\n(?:  [^\n]*\n)*?  if not symbol\.staticstorage and symbol\.scope ~= context\.rootscope and context\.generator ~= 'lua' and\n\s+not symbol:is_directly_accesible_from_scope\(context\.scope\) then\n    node:raisef\(\"attempt to access upvalue", idv))
+    mg = re.search(r"function visitors\.Goto\(context, node\)(.*?)\nend\n", an, re.S)
+    if not mg:
+        raise RuntimeError("visitors.Goto not found")
+    goto_chk = bool(re.search(r"for scope in context\.scope:iterate_up_scopes\(\) do\s+if scope\.is_deferblock and scope ~= labelscope then[^\n]*\n\s+node:raisef\(\"`goto` statement cannot jump out of a `defer` block\"\)\s+end\s+if scope\.has_defer then", mg.group(1)))
     td = vlib.repo_read("lualib/nelua/typedefs.lua")
     types = []
     for mm in re.finditer(r"primtypes\.(u?int\d+)\s*=\s*types\.IntegralType\('(\w+)',\s*(\d+)(?:,\s*(true|false))?", td):
@@ -116,25 +119,22 @@ def gen(ctx):
            "Definition gen_switchcase_index_is_loop_var : bool := %s.\n" % ("true" if fixed else "false") +
            "Definition gen_break_continue_check_defer_block : bool := %s.\n" % ("true" if jump else "false") +
            "Definition gen_upvalue_check_covers_forced_symbols : bool := %s.\n" % ("true" if forced_checked else "false") +
+           "Definition gen_goto_checks_defer_block : bool := %s.\n" % ("true" if goto_chk else "false") +
            "Definition gen_int_types : list (Z * bool) := [%s].\n" % "; ".join("(%d, %s)" % (b, "true" if s else "false") for _, b, s in types))
     vlib.write_if_changed(os.path.join(vlib.coq_dir(ID), "Gen.v"), txt)
-    return {"upvalue_check_covers_forced_symbols": forced_checked, "break_continue_check_defer_block": jump, "switchcase_index_expr": idx_expr, "case_loop_var": m1.group(1), "int_types": types}
+    return {"goto_checks_defer_block": goto_chk, "upvalue_check_covers_forced_symbols": forced_checked, "break_continue_check_defer_block": jump, "switchcase_index_expr": idx_expr, "case_loop_var": m1.group(1), "int_types": types}
 
 
 # programs on which the unchanged analyzer violates the FULL-strength rule (rule_ok_full), replayed in every run
 # (quick and thorough), keys are exact.  (key, body, what)
 WITNESSES = [
-    ("goto-leaves-defer: ::l1:: defer goto l1 end",
-     [('label', 1), ('defer', [('goto', 1)])],
-     "a backward goto from inside a defer block to a label of an enclosing block is accepted (visitors.Goto: the has_defer flag of the defer block's own scope is not yet set, and there is no check_jump_out_of_defer walk); the emitted C jumps from the clean-up code back into the function body"),
     ("label-repeated-in-function: do ::l1:: end ::l1::",
      [('do', [('label', 1)]), ('label', 1)],
      "a label repeated in one function is accepted when the earlier one is not visible (Scope:find_label only walks up the enclosing chain; this is also Lua 5.4's rule; the C label names are made unique, no repair proposed)"),
 ]
-# Any other accepted program that breaks ONLY one of these two full-strength clauses, and that the mechanism
+# Any other accepted program that breaks ONLY this full-strength clause, and that the mechanism
 # model of the unchanged analyzer also accepts, is reported under the class key of the defect's code site:
 CLASS_KEYS = {
-    "goto": "goto-leaves-defer@analyzer.lua visitors.Goto (no walk refusing is_deferblock scopes)",
     "uniq": "label-repeated-not-visible@analyzer.lua visitors.Label / Scope:find_label (enclosing chain only)",
 }
 
@@ -328,9 +328,7 @@ def correspond(ctx):
             n_full_only += 1
             if key:
                 k = key
-            elif model_ok and rules[8] == "0":
-                k = CLASS_KEYS["goto"]
-            elif model_ok and rules[7] == "0":
+            elif model_ok and rules[7] == "0" and rules[8] == "1":
                 k = CLASS_KEYS["uniq"]
             else:
                 k = "prog:%s@%s" % (body_key(body), emb)
